@@ -169,6 +169,39 @@ Section IoLoop.
 End IoLoop.
 
 (** * Built-in scalars *)
+
+Lemma digits_agree : forall l acc, sp_digits (Z.of_N acc) l = option_map Z.of_N (digits_val acc l).
+Proof.
+  induction l as [|c r IH]; intros acc; [reflexivity|]. cbn [sp_digits digits_val].
+  unfold sp_digit, digit_val. destruct (N.leb 48 c && N.leb c 57) eqn:E; [|reflexivity].
+  apply andb_true_iff in E as [E1 E2]. apply N.leb_le in E1, E2.
+  rewrite <- IH. f_equal. lia.
+Qed.
+
+Lemma parse_i32_spec l : parse_i32 l = int32_lexeme l.
+Proof.
+  unfold parse_i32, int32_lexeme, lexeme_int.
+  assert (Hpos : forall ds, match digits_val 0 ds with Some m => N.leb m 2147483647 | None => false end
+                           = match sp_digits 0 ds with Some z => Z.leb (-2147483648) z && Z.leb z 2147483647 | None => false end).
+  { intros ds. pose proof (digits_agree ds 0) as Ed. change (Z.of_N 0) with 0%Z in Ed. rewrite Ed. destruct (digits_val 0 ds) as [m|]; [|reflexivity]. cbn [option_map].
+    destruct (N.leb_spec m 2147483647), (Z.leb_spec (-2147483648) (Z.of_N m)), (Z.leb_spec (Z.of_N m) 2147483647);
+      cbn [andb]; try reflexivity; lia. }
+  assert (Hneg : forall ds, match digits_val 0 ds with Some m => N.leb m 2147483648 | None => false end
+                           = match option_map Z.opp (sp_digits 0 ds) with
+                             | Some z => Z.leb (-2147483648) z && Z.leb z 2147483647 | None => false end).
+  { intros ds. pose proof (digits_agree ds 0) as Ed. change (Z.of_N 0) with 0%Z in Ed. rewrite Ed. destruct (digits_val 0 ds) as [m|]; [|reflexivity]. cbn [option_map].
+    destruct (N.leb_spec m 2147483648), (Z.leb_spec (-2147483648) (- Z.of_N m)), (Z.leb_spec (- Z.of_N m) 2147483647);
+      cbn [andb]; try reflexivity; lia. }
+  destruct l as [|c r]; [reflexivity|].
+  destruct (N.eq_dec c 45) as [->|H45].
+  - destruct r as [|c' r']; [reflexivity|]. apply Hneg.
+  - destruct (N.eq_dec c 43) as [->|H43].
+    + destruct r as [|c' r']; [reflexivity|]. apply Hpos.
+    + destruct c as [|p]; [exact (Hpos (0%N :: r))|].
+      do 6 (destruct p as [p|p|];
+            try (match goal with |- context [digits_val 0 (?c :: r)] => exact (Hpos (c :: r)) end)); congruence.
+Qed.
+
 Lemma s_consts :
   s "Int" = str_Int /\ s "Float" = str_Float /\ s "String" = str_String /\ s "Boolean" = str_Boolean /\ s "ID" = str_ID.
 Proof. repeat split; reflexivity. Qed.
@@ -184,7 +217,7 @@ Proof.
   destruct (str_eqb_spec name str_String) as [E4|E4];
   destruct (str_eqb_spec name str_ID) as [E5|E5];
   unfold str_Boolean, str_Int, str_Float, str_String, str_ID in *;
-  try congruence; destruct v; cbn in *; congruence.
+  try congruence; destruct v; cbn in *; rewrite <- ?parse_i32_spec in *; congruence.
 Qed.
 
 (** * check_value is sound for "Values of Correct Type" and "All Variable Usages Are Allowed" *)
